@@ -555,6 +555,13 @@ func (s *seqState) stepOnce() {
 		if r.Chance(25) {
 			row[Pick(r, s.names)] = s.anyCell()
 		}
+		if r.Chance(8) {
+			// several NEW columns at once, one of them with the empty name (a legal name): all of them are created,
+			// or — should the row be refused — none
+			for _, nm := range []string{"", "n1", "n2", "n3", "n4"}[:r.Range(2, 5)] {
+				row[nm] = s.anyCell()
+			}
+		}
 		e.Tok("appendrow")
 		e.Int(t)
 		e.Row(row)
